@@ -26,6 +26,7 @@ implementation is not worth closing) or when `deadline` passes; in both cases `f
 import os
 import pickle
 import shutil
+import sys
 import tempfile
 import time
 import traceback
@@ -294,8 +295,11 @@ def explore(model, acc, jobs=None, deadline=None, max_states=None, min_fork=8):
         else:
             n = min(jobs * 4, len(frontier))
             chunks = [frontier[i::n] for i in range(n)]
+        t_level = time.time()
         results = fork_map(work, chunks, jobs)
         expanded += len(frontier)
+        if os.environ.get('VERIF_BFS_PROGRESS'):
+            print(f'bfs {family}: depth {len(levels) - 1}: {len(frontier)} states expanded in {time.time() - t_level:.1f}s, {len(parent)} known', file=sys.stderr, flush=True)
         succ = []
         viol_before = acc.nviol + acc.nknown
         found = {'violations': [], 'known_violations': []}
